@@ -23,7 +23,11 @@ access / arithmetic / write-back], nothing observed in between) and `flatten_mod
 block view) put the histories that such caches and fast paths need into every depth of the enumeration.
 Arrays returned by Vector.flatten() / v[f].flatten() (new arrays by contract, unlike slicing views and
 get_data cells, which share storage by design) are kept together with a snapshot and must still equal
-it after every later operation (`returned_value_changed`).  What sparse mode cannot see: a defect that
+it after every later operation (`returned_value_changed`).  Arguments: every list / array handed to the library is
+snapshotted (container length, element identities, element contents), must be unchanged after the call
+(`argument_modified`) and is then scribbled over by the "caller"; `shared_argument` hands one data list to two
+constructions; `partial_block_failure` leaves a block assignment half-way (state after an error) behind an earlier
+write-back and follows it with another one.  What sparse mode cannot see: a defect that
 manifests and is healed again between two operations of the history without ever reaching a returned
 value or the final state.
 """
@@ -47,16 +51,16 @@ ALPHABET = [
     "flatten", "field_flatten", "field_roundtrip", "field_set_flat", "field_assign", "field_getitem",
     "add_field_str", "add_fields_list", "remove_field_str", "remove_fields_list",
     "copy", "new_vector", "metadata_write", "invalid_set", "invalid_fields", "invalid_index",
-    "schema_churn", "flatten_modify_restore",
+    "schema_churn", "flatten_modify_restore", "partial_block_failure", "shared_argument",
 ]  # fmt: skip
 SCHEMA_OPS = {"add_field_str", "add_fields_list", "remove_field_str", "remove_fields_list", "schema_churn"}
-SLICE_OPS = {"get_slice", "get_short", "get_list", "get_data_fancy", "set_slice_list", "set_slice_vector", "set_list_list", "set_data_fancy", "field_getitem"}
+SLICE_OPS = {"partial_block_failure", "get_slice", "get_short", "get_list", "get_data_fancy", "set_slice_list", "set_slice_vector", "set_list_list", "set_data_fancy", "field_getitem"}
 IOPS = ["iadd", "isub", "imul", "itruediv", "ifloordiv", "imod", "ipow"]
 
 RULE = (
     "bounded-exhaustive sequences over a %d-operation alphabet (all sequences of length <=2 quick / <=3 thorough) x 1, 2, 3 fixed "
     "dimensions, each run densely observed (full comparison after every operation) and sparsely observed (no read of any live vector "
-    "between operations, full comparison at the end; of the length-3 sequences every second one), plus seeded random histories of depth 15 (every tenth: 40), half of them sparse; every history starts from a randomly shaped (sizes 1-4), randomly "
+    "between operations, full comparison at the end; of the length-3 sequences every third one), plus seeded random histories of depth 15 (every tenth: 40), half of them sparse; every history starts from a randomly shaped (sizes 1-4), randomly "
     "populated vector (0-5 rows per cell, unset cells, float or int cells) and operation parameters (indices, values, field "
     "names) are drawn from the case seed. non-trivial = two populated cells with different row counts existed and the history "
     "contains a schema change or a block (slice/list) access; distinct = (number of fixed dimensions, observation mode, operation-kind sequence)" % len(ALPHABET)
@@ -66,7 +70,8 @@ ASSUMPTIONS = [
     "the workload never stores one array object in two places (block copies between vectors go through view.copy()), so any storage shared between live vectors is the library's doing; views returned by slicing are compared immediately and dropped",
     "get_data on a one-cell block may return the bare cell or a one-element list (both accepted); one-cell list indices and one-cell set_data blocks are not generated for assignment",
     "an assignment with fewer indices than axes may either raise (state unchanged) or act on all trailing axes, as __getitem__ does; anything else is a violation",
-    "invalid block assignments are generated with every element invalid (atomicity of a partially valid list is not part of the property)",
+    "atomicity of a failing block assignment is not part of the property: invalid_set offers lists in which every element is invalid; partial_block_failure offers valid arrays followed by an invalid one, requires the call to raise and every addressed cell to hold either its old value or the array offered for it, and lets the model adopt what it reads back",
+    "a call must leave the lists / arrays it is given as they were (argument_modified) and later changes the caller makes to its own containers (slot replaced, junk appended, nested-list cells and value arrays edited in place) must not reach any vector; arrays the API stores by reference (cell arrays given to from_data / assignments) are never edited by the workload afterwards, and two vectors built from the same list of *arrays* are only required to have independent containers",
     "calls the model marks invalid (wrong column count, non-2-D cell, wrong number of arrays for a block, duplicate/existing/unknown field, wrong flattened length, out-of-range position, wrong number of get_data/set_data indices) must raise (any exception type) and leave every live vector unchanged; negative positions in get_data/set_data may raise or mean what they mean for __getitem__",
     "unit texts the caller did not choose (default units, units of added fields) are adopted from the library; only their count and position are judged",
     "cell dtype is not part of the property: values are compared exactly, the model adopts the real cell's dtype whenever the values agree; integer cells only receive integer-closed field arithmetic",
@@ -74,14 +79,14 @@ ASSUMPTIONS = [
 ]
 BUDGET = {"quick": {"soft_s": 150}, "thorough": {"soft_s": 900}}
 MIN_EVALUATIONS = {"quick": 2000, "thorough": 50000}
-REQUIRED_COUNTERS = ["eval:state_mismatch", "eval:class_invariant", "eval:result_mismatch", "eval:flatten_law", "eval:shared_storage", "eval:bystander_changed", "eval:exception", "eval:invalid_accepted", "eval:metadata_leak", "eval:returned_value_changed"]
+REQUIRED_COUNTERS = ["eval:state_mismatch", "eval:class_invariant", "eval:result_mismatch", "eval:flatten_law", "eval:shared_storage", "eval:bystander_changed", "eval:exception", "eval:invalid_accepted", "eval:metadata_leak", "eval:returned_value_changed", "eval:argument_modified", "eval:partial_failure_state"]
 EXHAUSTIVE = {"quick": False, "thorough": False}
 
 
 def plan(tier, seed):
     """every enumerated sequence is run densely observed and sparsely observed (see the module docstring)"""
     specs = []
-    nrand = 1500 if tier == "quick" else 30000
+    nrand = 1500 if tier == "quick" else 24000
     for i in range(nrand):
         specs.append({"kind": "rand", "ndim": 1 + i % 3, "depth": 15 if i % 10 else 40, "obs": "sparse" if (i // 3) % 2 else "dense"})
     depth = 2 if tier == "quick" else 3
@@ -89,7 +94,7 @@ def plan(tier, seed):
         for d in range(1, depth + 1):
             for n, seq in enumerate(itertools.product(ALPHABET, repeat=d)):
                 specs.append({"kind": "exh", "ndim": nd, "ops": list(seq), "obs": "dense"})
-                if d <= 2 or (n + nd) % 2 == 0:  # length-3 sequences: every second one is also run sparsely (time budget)
+                if d <= 2 or (n + nd) % 3 == 0:  # length-3 sequences: every third one is also run sparsely (time budget)
                     specs.append({"kind": "exh", "ndim": nd, "ops": list(seq), "obs": "sparse"})
     return specs
 
@@ -306,6 +311,50 @@ def _axis(rng, n, kind, unique=False, minlen=1):
 def _pattern_fields(pat, ndim):
     nonint = [i for i, p in enumerate(pat) if p not in "in"]
     return {"ndim": ndim, "idx": ",".join(pat), "short": len(pat) < ndim, "nfancy": len(nonint), "fancy_first": nonint[0] if nonint else -1}
+
+
+class ArgWatch:
+    """A list / array handed to the library: the call must leave it as it was (same container length, same element objects,
+    same element contents), and what the caller does to its own container afterwards must not reach the vector (the
+    container is scribbled over: a slot replaced, junk appended, nested-list cells / copied value arrays edited in
+    place).  Arrays the API stores by reference (cells) are never edited: sharing them is the caller's choice."""
+
+    def __init__(self, S, arg, what):
+        self.S, self.arg, self.what = S, arg, what
+        if isinstance(arg, np.ndarray):
+            self.snap = arg.copy()
+        else:
+            self.elems = list(arg)
+            self.snap = [e.copy() if isinstance(e, np.ndarray) else _copy.deepcopy(e) for e in arg]
+
+    def _unchanged(self):
+        a = self.arg
+        if isinstance(a, np.ndarray):
+            return _same(a, self.snap)
+        if len(a) != len(self.elems) or any(x is not y for x, y in zip(a, self.elems)):
+            return False
+        return all(_same(x, y) if isinstance(x, np.ndarray) else x == y for x, y in zip(a, self.snap))
+
+    def verify(self):
+        S = self.S
+        return S.ctx.check(self._unchanged(), "argument_modified", lambda: "%s was modified by the call: now %s" % (self.what, _brief(self.arg)), arg=self.what.split(" ")[0], **S.fields())
+
+    def scribble(self, deep=False):
+        """the caller reuses its container after the call; deep: also edit nested-list cells / value arrays in place"""
+        a = self.arg
+        self.S.ctx.count("arguments_scribbled")
+        if isinstance(a, np.ndarray):
+            if deep and a.size and a.flags.writeable:
+                a[...] = 77
+            return
+        if deep:
+            for e in a:
+                if isinstance(e, list) and e and isinstance(e[0], list) and e[0]:
+                    e[0][0] = 4242
+                    e.append(list(e[0]))
+        if len(a):
+            a[int(self.S.rng.integers(len(a)))] = "junk" if isinstance(a[0], str) else np.zeros((1, 1))
+        a.append("junk" if (a and isinstance(a[0], str)) else np.zeros((2, 1)))
 
 
 class Sess:
@@ -528,19 +577,27 @@ class Sess:
                 kw["units"] = list(units)
             if name:
                 kw["name"] = name
+            watches = [ArgWatch(self, data, "data list of from_data")] + [ArgWatch(self, kw[k], "%s list of from_data" % k) for k in ("fields", "units") if k in kw]
             r, exc = self.call(lambda: V.from_data(data, **kw))
             if not self.expect_ok(exc, "from_data"):
                 return None
-            m = VecModel.from_data([np.array(d) if isinstance(d, list) else d for d in data], fields=mfields, units=units)
+            for w in watches:
+                w.verify()
+                w.scribble(deep=True)  # nested-list cells are converted (copied) by from_data; array cells are not touched
+            m = VecModel.from_data([np.array(c.tolist()) if (aslists and c.shape[0] > 0) else c for c in cells], fields=mfields, units=units)
             return [r, m]
         kw = {"fields": list(fields)} if fields is not None else {"num_fields": nf}
         if units is not None:
             kw["units"] = list(units)
         if name:
             kw["name"] = name
+        watches = [ArgWatch(self, kw[k], "%s list of from_shape" % k) for k in ("fields", "units") if k in kw]
         r, exc = self.call(lambda: V.from_shape(tuple(shape), **kw))
         if not self.expect_ok(exc, "from_shape"):
             return None
+        for w in watches:
+            w.verify()
+            w.scribble()
         m = VecModel(shape, mfields, units)
         # populate through the cell-assignment paths; sometimes exactly one populated cell, the others unset
         only = m.order()[int(rng.integers(len(m.order())))] if rng.random() < 0.15 else None
@@ -634,9 +691,11 @@ class Sess:
             self.op, self.extra = old
 
     # ---- generic mutation ----------------------------------------------------------------------------
-    def mutate(self, real_fn, model_fn, what):
-        """model_fn(m) raises Invalid for calls outside the domain"""
+    def mutate(self, real_fn, model_fn, what, watch=()):
+        """model_fn(m) raises Invalid for calls outside the domain; watch: (argument, description, deep) triples, see ArgWatch"""
         from vf.refmodels.vector_model import Invalid
+
+        watches = [(ArgWatch(self, a, d), deep) for a, d, deep in watch if isinstance(a, (list, np.ndarray))]
 
         m = self.m
         backup = m.clone()
@@ -653,6 +712,9 @@ class Sess:
                 m.__dict__.update(backup.__dict__)
         else:
             self.expect_raise(exc, what)
+        for w, deep in watches:
+            w.verify()
+            w.scribble(deep=deep)
         return exc
 
 
@@ -677,11 +739,13 @@ def _op_set_cell(S, via):
     idx, pat = S.index(m.shape, "cell_neg" if via == "item" else "cell")
     S.extra = _pattern_fields(pat, m.ndim)
     c = _rand_cell(rng, m.nf, S.kind)
+    given = c.copy()
     if via == "item":
         k = S.key(idx)
-        S.mutate(lambda r: r.__setitem__(k, c.copy()), lambda mm: mm.setitem(idx, c), "v[%s] = array%r" % (_fmt_idx(idx), c.shape))
+        S.mutate(lambda r: r.__setitem__(k, given), lambda mm: mm.setitem(idx, c), "v[%s] = array%r" % (_fmt_idx(idx), c.shape))
     else:
-        S.mutate(lambda r: r.set_data(c.copy(), *idx), lambda mm: mm.set_data(c, *idx), "set_data(array%r, %s)" % (c.shape, _fmt_idx(idx)))
+        S.mutate(lambda r: r.set_data(given, *idx), lambda mm: mm.set_data(c, *idx), "set_data(array%r, %s)" % (c.shape, _fmt_idx(idx)))
+    S.ctx.check(_same(given, c), "argument_modified", "the cell array handed to the assignment was modified by the call", arg="cell", **S.fields())
     return True
 
 
@@ -743,11 +807,12 @@ def _op_set_block_list(S, mode, via):
     idx, pat = S.index(m.shape, mode)
     S.extra = _pattern_fields(pat, m.ndim)
     vals = _values_for(S, _count(m, idx))
+    given = [v.copy() for v in vals]
     if via == "item":
         k = S.key(idx)
-        S.mutate(lambda r: r.__setitem__(k, [v.copy() for v in vals]), lambda mm: mm.setitem(idx, vals), "v[%s] = list of %d arrays (shape %r)" % (_fmt_idx(idx), len(vals), m.shape))
+        S.mutate(lambda r: r.__setitem__(k, given), lambda mm: mm.setitem(idx, vals), "v[%s] = list of %d arrays (shape %r)" % (_fmt_idx(idx), len(vals), m.shape), watch=[(given, "value list of __setitem__", False)])
     else:
-        S.mutate(lambda r: r.set_data([v.copy() for v in vals], *idx), lambda mm: mm.set_data(vals, *idx), "set_data(list of %d arrays, %s) (shape %r)" % (len(vals), _fmt_idx(idx), m.shape))
+        S.mutate(lambda r: r.set_data(given, *idx), lambda mm: mm.set_data(vals, *idx), "set_data(list of %d arrays, %s) (shape %r)" % (len(vals), _fmt_idx(idx), m.shape), watch=[(given, "value list of set_data", False)])
     return True
 
 
@@ -939,9 +1004,9 @@ def _op_field_set(S, how):
     vals = rng.integers(-20, 21, size=total).astype(np.float64) if S.kind == "int" or rng.random() < 0.3 else np.round(rng.normal(size=total) * 3, 2)
     given = vals.tolist() if rng.random() < 0.2 else vals.copy()
     if how == "set_flattened":
-        S.mutate(lambda r: r[name].set_flattened(given), lambda mm: mm.set_flattened(name, vals), "v[%r].set_flattened(%d values)" % (name, total))
+        S.mutate(lambda r: r[name].set_flattened(given), lambda mm: mm.set_flattened(name, vals), "v[%r].set_flattened(%d values)" % (name, total), watch=[(given, "values of set_flattened", True)])
     else:
-        S.mutate(lambda r: r.__setitem__(name, given), lambda mm: mm.set_flattened(name, vals), "v[%r] = %d values" % (name, total))
+        S.mutate(lambda r: r.__setitem__(name, given), lambda mm: mm.set_flattened(name, vals), "v[%r] = %d values" % (name, total), watch=[(given, "values of field assignment", True)])
     return True
 
 
@@ -983,7 +1048,8 @@ def _op_add_fields(S, how):
         new = _fresh_names(S, int(rng.integers(1, 4)))
         if rng.random() < 0.3:
             new = tuple(new)
-    S.mutate(lambda r: r.add_fields(new if isinstance(new, str) else type(new)(new)), lambda mm: mm.add_fields(new), "add_fields(%r)" % (new,))
+    given = new if isinstance(new, str) else type(new)(new)
+    S.mutate(lambda r: r.add_fields(given), lambda mm: mm.add_fields(new), "add_fields(%r)" % (new,), watch=[(given, "names list of add_fields", False)])
     return True
 
 
@@ -1000,7 +1066,8 @@ def _op_remove_fields(S, how):
             names.insert(int(rng.integers(len(names) + 1)), "no_such_field")
         if rng.random() < 0.2:
             names.append(names[0])
-    S.mutate(lambda r: r.remove_fields(names if isinstance(names, str) else list(names)), lambda mm: mm.remove_fields(names), "remove_fields(%r)" % (names,))
+    given = names if isinstance(names, str) else list(names)
+    S.mutate(lambda r: r.remove_fields(given), lambda mm: mm.remove_fields(names), "remove_fields(%r)" % (names,), watch=[(given, "names list of remove_fields", False)])
     return True
 
 
@@ -1304,7 +1371,142 @@ def _op_flatten_modify_restore(S):
     return True
 
 
+def _op_partial_block_failure(S):
+    """[write-back of a field,] a block assignment whose value list starts with valid arrays (row counts different from the
+    cells they replace) and then holds an invalid one: the call must raise; which of the valid arrays were stored before
+    the failure is not part of the property, so the addressed cells are read back one by one (each must hold either its
+    old value or the array offered for it) and adopted by the model; then a follow-up (write-back round trip, arithmetic,
+    wrong-length write-back) is judged against that state."""
+    rng, m, r = S.rng, S.m, S.r
+    if max(m.shape) < 2:
+        return _op_invalid_set(S)
+    if rng.random() < 0.7:
+        _roundtrip(S, S.cur, _pick_field(S), int(rng.integers(2)))
+    via = str(rng.choice(["item_slice", "item_list", "set_data"]))
+    for _ in range(20):
+        idx, pat = S.index(m.shape, {"item_slice": "slice_noneg", "item_list": "list_unique", "set_data": "data_multi"}[via])
+        _, pos = m._address(idx, neg_ok=True, exact=True)
+        targets = list(itertools.product(*pos))
+        if len(targets) >= 2:
+            break
+    else:
+        return _op_invalid_set(S)
+    S.extra = dict(_pattern_fields(pat, m.ndim), variant=via)
+    nbad = int(rng.integers(1, len(targets)))  # position of the first invalid entry (>= 1 valid entries before it)
+    bad_kind = str(rng.choice(["cols", "1d", "type"]))
+    vals = []
+    for t, ix in enumerate(targets):
+        cur_rows = None if m.cells[ix] is None else m.cells[ix].shape[0]
+        if t < nbad or rng.random() < 0.5:
+            rows = int(rng.integers(0, 6))
+            if rows == cur_rows:
+                rows += 1
+            vals.append(_rand_cell(rng, m.nf, S.kind, rows=rows))
+        else:
+            vals.append(None)
+    for t in range(len(targets)):
+        if vals[t] is None or t == nbad:
+            vals[t] = _rand_cell(rng, m.nf + 1, S.kind, rows=2) if bad_kind == "cols" else (np.zeros(m.nf) if bad_kind == "1d" else [[0.0] * m.nf])
+    given = [v.copy() if isinstance(v, np.ndarray) else list(v) for v in vals]
+    total_before = sum(m.cells[ix].shape[0] for ix in m.populated())
+    what = "%s with %d valid arrays followed by an invalid one (%s), block %s on shape %r" % (via, nbad, bad_kind, _fmt_idx(idx), m.shape)
+    k = S.key(idx)
+    w = ArgWatch(S, given, "value list of a failing block assignment")
+    _, exc = S.call((lambda: r.set_data(given, *idx)) if via == "set_data" else (lambda: r.__setitem__(k, given)))
+    S.expect_raise(exc, what)
+    w.verify()
+    # read the addressed cells back (cell reads only) and adopt them
+    for t, ix in enumerate(targets):
+        c, e2 = S.call(lambda: r.get_data(*ix) if rng.random() < 0.5 else r[ix if len(ix) > 1 else ix[0]])
+        if not S.expect_ok(e2, "reading cell %r back" % (ix,)):
+            continue
+        old = m.cells[ix]
+        offered = vals[t] if (isinstance(vals[t], np.ndarray) and m.valid_cell(vals[t])) else None
+        ok = _same(c, old) or (offered is not None and _same(c, offered))
+        S.ctx.check(ok, "partial_failure_state", lambda: "after the failed assignment cell %r holds %s: neither its old value %s nor the array offered for it %s" % (ix, _brief(c), _brief(old), _brief(offered)), **S.fields())
+        if ok:
+            m.cells[ix] = None if c is None else np.array(c, copy=True)
+    S.ctx.count("partial_failures_cells_kept" if any(m.cells[ix] is not None and isinstance(vals[t], np.ndarray) and _same(m.cells[ix], vals[t]) for t, ix in enumerate(targets)) else "partial_failures_nothing_kept")
+    follow = int(rng.integers(5))
+    S.extra = dict(S.extra, follow=["none", "roundtrip", "roundtrip", "arithmetic", "wrong_length"][follow])
+    name = _pick_field(S)
+    total = sum(m.cells[ix].shape[0] for ix in m.populated())
+    if follow in (1, 2):
+        _roundtrip(S, S.cur, name, follow - 1)
+    elif follow == 3:
+        op, other = _rand_iop(S)
+        S.mutate(lambda rr: _iop_stmt(rr, name, op, other), lambda mm: mm.field_iop(name, op, other), "v[%r] %s %r after a failed block assignment" % (name, op, other))
+    elif follow == 4:
+        n = total_before if total_before != total else total + 1
+        vals2 = np.zeros(n)
+        S.mutate(lambda rr: rr[name].set_flattened(vals2), lambda mm: mm.set_flattened(name, vals2), "set_flattened(%d values) for %d rows after a failed block assignment" % (n, total))
+    return True
+
+
+def _op_shared_argument(S):
+    """the same data list object is handed to two constructions (from_data twice, or from_data and the data setter of
+    another vector); the two vectors must be independent.  With nested-list cells the library builds the arrays itself, so
+    nothing at all may be shared and both vectors join the live set (whole-cell and in-place operations on one, the other
+    is a bystander).  With array cells the caller's arrays are stored by reference in both (the caller's choice), so only
+    the container is judged: a whole-cell assignment on one must not show in the other."""
+    from vf.refmodels.vector_model import VecModel
+
+    rng, V = S.rng, S.V
+    n = int(rng.integers(2, 5))
+    nf = int(rng.integers(1, 4))
+    nested = rng.random() < 0.6
+    cells = [_rand_cell(rng, nf, S.kind, rows=int(rng.integers(1, 4))) for _ in range(n)]
+    data = [c.tolist() for c in cells] if nested else [c.copy() for c in cells]
+    fields = [str(x) for x in rng.permutation(POOL)[:nf]]
+    second = str(rng.choice(["from_data", "data_setter"]))
+    S.extra = {"variant": ("nested_" if nested else "arrays_") + second}
+    w = ArgWatch(S, data, "data list shared by two constructions")
+    a, exc = S.call(lambda: V.from_data(data, fields=list(fields)))
+    if not S.expect_ok(exc, "from_data"):
+        return True
+    w.verify()
+    if second == "from_data":
+        b, exc = S.call(lambda: V.from_data(data, fields=list(fields)))
+    else:
+        b, exc = S.call(lambda: V.from_shape((n,), fields=list(fields)))
+        if exc is None:
+            _, exc = S.call(lambda: setattr(b, "data", data))
+    if not S.expect_ok(exc, second + " with the list already used for another vector"):
+        return True
+    w.verify()
+    pristine = [np.array(c.tolist()) if nested else c for c in cells]
+    ma, mb = VecModel.from_data(pristine, fields=fields), VecModel.from_data(pristine, fields=fields)
+    i = int(rng.integers(n))
+    newcell = _rand_cell(rng, nf, S.kind, rows=int(cells[i].shape[0]) + 1)
+    if nested:
+        S.live.append([a, ma])
+        S.live.append([b, mb])
+        S.cur = len(S.live) - (1 if rng.random() < 0.5 else 2)
+        # one whole-cell and one in-place operation on one of the two; the other one is compared as a bystander
+        S.mutate(lambda r: r.__setitem__(i, newcell.copy()), lambda mm: mm.setitem((i,), newcell), "v[%d] = array on one of two vectors built from the same list" % i)
+        op, other = _rand_iop(S)
+        name = fields[int(rng.integers(nf))]
+        S.mutate(lambda r: _iop_stmt(r, name, op, other), lambda mm: mm.field_iop(name, op, other), "v[%r] %s %r on one of two vectors built from the same list" % (name, op, other))
+        w.scribble(deep=True)
+        return True
+    # array cells: container only
+    _, exc = S.call(lambda: a.__setitem__(i, newcell.copy()))
+    if S.expect_ok(exc, "v[%d] = array" % i):
+        got, e2 = S.call(lambda: b.get_data(i))
+        if S.expect_ok(e2, "get_data(%d)" % i):
+            S.ctx.check(_same(got, cells[i]), "bystander_changed", lambda: "a whole-cell assignment on one vector changed cell %d of another vector built from the same data list: %s" % (i, _brief(got)), **S.fields())
+        ma.setitem((i,), newcell)
+    w.scribble()
+    # the vector assigned to stays in the history (its cells are arrays nobody else keeps using); the other one is dropped
+    ok = S.compare_result(a, ma, "vector built from a reused data list")
+    if ok:
+        S.live.append([a, ma])
+    return True
+
+
 DISPATCH = {
+    "partial_block_failure": _op_partial_block_failure,
+    "shared_argument": _op_shared_argument,
     "schema_churn": _op_schema_churn,
     "flatten_modify_restore": _op_flatten_modify_restore,
     "set_cell_item": lambda S: _op_set_cell(S, "item"),
@@ -1416,5 +1618,9 @@ def summarize(all_cases, counters, extras):
         "short_assignments_rejected": counters.get("short_assignment_rejected", 0),
         "sparsely_observed_histories": counters.get("sparse_histories", 0),
         "returned_arrays_watched": counters.get("eval:returned_value_changed", 0),
+        "arguments_checked_unchanged": counters.get("eval:argument_modified", 0),
+        "arguments_scribbled_after_the_call": counters.get("arguments_scribbled", 0),
+        "failed_block_assignments_that_kept_some_cells": counters.get("partial_failures_cells_kept", 0),
+        "failed_block_assignments_that_kept_nothing": counters.get("partial_failures_nothing_kept", 0),
         "tolerance": "exact (0); noise floor 0 by construction (model and library apply identical IEEE operations)",
     }
